@@ -38,6 +38,8 @@ def diagram(schema, item):
          'pph': 'succeeds', 'keys': [['Prev_Id', 'Id']]},
         {'k': 'linked', 'num': 3, 'comp': '', 'one': 'A', 'oth': 'B', 'link': 'L', 'om': 0, 'oc': 1, 'oph': '', 'tm': 0, 'tc': 1,
          'tph': '', 'okeys': [['A_Id', 'Id']], 'tkeys': [['B_Id', 'Id']]},
+        {'k': 'linked', 'num': 4, 'comp': '', 'one': 'P', 'oth': 'P', 'link': 'M', 'om': 1, 'oc': 1, 'oph': 'one', 'tm': 1, 'tc': 1,
+         'tph': 'other', 'okeys': [['One_Id', 'Id']], 'tkeys': [['Other_Id', 'Id']]},
     ]
     funcs = [{'n': n, 'ret': f['ret'], 'body': texts['func:' + n], 'params': [{'n': p, 'ty': f['ptypes'][p]} for p in f['params']]}
              for n, f in env['funcs'].items()]
